@@ -1,7 +1,8 @@
 SPECIFICATION Spec
-CONSTANTS Ids = {1,2,3}
+CONSTANTS Ids = {1,2}
   MaxAddr = 2
   Variant = "faithful"
+  KindsOn = {"P","S","W","A","T","V","E","H"}
 VIEW View
 PROPERTY RefinesIdeal
 INVARIANT NoLeak
